@@ -11,7 +11,7 @@ Check (C04_scalar_exactly_one : forall o l, fate_diags o (PExpr l) = [] ->
   \/ (fate_form o (PExpr l) = [] /\ fate_header o (PExpr l) = [{| h_name := l_name l; h_members := [] |}])).
 Check (C04_gadget_members_placed : forall o n w r ms,
   (role_of o n = RSerial \/ role_of o n = RValue) -> fate_diags o (PGadget n w r GSupported ms) = [] ->
-  fate_form o (PGadget n w r GSupported ms) = [{| f_name := n; f_members := map l_name (filter l_const ms) |}]
+  fate_form o (PGadget n w r GSupported ms) = [{| f_name := n; f_members := sort_by (fun s => s) (map l_name (filter l_const ms)) |}]
   /\ (forallb l_const ms = true -> fate_header o (PGadget n w r GSupported ms) = [])
   /\ (forallb l_const ms = false -> exists hm, fate_header o (PGadget n w r GSupported ms) = [{| h_name := n; h_members := hm |}]
                                                /\ Permutation hm (map l_name ms))).
